@@ -195,6 +195,15 @@ func runGroups(e *Env) {
 				continue
 			}
 			ni--
+			if !router && !lossy && nsenders == 1 && e.Choose("wl.reconnect", 10) == 0 && gw.Idle() && gw.Cur() != nil {
+				// the gateway ends the connection while nothing is in flight; the client reconnects
+				// and everything starts over on the new connection (numbering included)
+				old := gw.Cur()
+				e.Fault("disconnect-request")
+				gw.Disconnect()
+				e.WaitDone("group-reconnect", 5*time.Second, func() bool { return gw.Cur() != nil && gw.Cur() != old })
+				s.SleepFor(5 * time.Millisecond)
+			}
 			// an arbitrary inbound cEMI frame
 			code := []uint8{0x29, 0x29, 0x29, 0x29, 0x11, 0x2e, 0x2b, 0x10, 0x2d, 0x2f, 0x55}[e.Choose("wl.code", 11)]
 			ctrl2 := uint8(e.Choose("wl.c2", 256))
